@@ -75,6 +75,12 @@ def main_stream(fs):
 def reference(spec):
     """Sequential schedule, capacity 16, 4096-byte buffer: independent of every environment knob."""
     fs, r = simulate(spec, 16, 4096, core.SeqChooser(), 100000)
+    if r.status in ('deadlock', 'stepcap'):
+        sig, what = judge(spec, None, fs, r)
+        return {'failed': {'spec': {k: v for k, v in spec.items() if k != 'src'}, 'cap': 16, 'buf': 4096, 'policy': 'seq',
+                           'preempt': None, 'trace': list(r.sched.trace), 'signature': sig,
+                           'what': what + ' (under the strictly sequential schedule)',
+                           'events': compact_trace(r.sched.events, 400)}}
     if r.status != 'ok':
         return None
     stream, append_only, _ = main_stream(fs)
@@ -183,6 +189,7 @@ def build_pool(seed, n, scratch, gate=True):
     rng = core.stream(seed, 'pool', 'workload')
     pool = []
     rejected = 0
+    failed = build_pool.failed = []
     idx = 0
     forced = list(workloads.ROUTES)
     while len(pool) < n and idx < 4 * n:
@@ -198,6 +205,9 @@ def build_pool(seed, n, scratch, gate=True):
             ref = None
         if ref is None:
             rejected += 1      # the sequential reference itself rejects it: trivial, skipped
+            continue
+        if 'failed' in ref:
+            failed.append((spec['id'], ref['failed']))     # the reference schedule itself never returns
             continue
         if gate:
             # a mismatch is either a stub that misrepresents the real thing or a real race in the
@@ -251,8 +261,13 @@ def replay_doc(doc, scratch, ref=None):
         if ref is None:
             raise common.HarnessFailure('reference run of the replayed input failed')
     chooser = core.ReplayChooser(doc['trace'])
-    fs, r = simulate(spec, doc['cap'], doc['buf'], chooser, 10 * ref['steps'] + 400, doc.get('preempt'))
+    steps = ref.get('steps', 10000)
+    fs, r = simulate(spec, doc['cap'], doc['buf'], chooser, 10 * steps + 400, doc.get('preempt'))
+    if 'image' not in ref and r.status == 'ok':
+        return None, '', r, ref           # recorded against a reference run that did not terminate
     sig, what = judge(spec, ref, fs, r)
+    if doc.get('policy') == 'seq' and sig:
+        what += ' (under the strictly sequential schedule)'
     return sig, what, r, ref
 
 
@@ -328,6 +343,20 @@ def _main(tier, seed, scratch, t0):
     quick = tier == 'quick'
     n_pool = 28 if quick else 160
     pool, rejected = build_pool(seed, n_pool, scratch)
+    ref_failed = list(build_pool.failed)
+    if not pool and not ref_failed:
+        common.harness_exit('the sequential reference run rejects every logical input: nothing to vouch for')
+    if not pool:
+        # every input already fails to terminate under the reference schedule: report and stop
+        known = common.load_known(PID)
+        sig = ref_failed[0][1]['signature']
+        doc = dict(ref_failed[0][1], property=PID, seed=seed, run='reference', occurrences=len(ref_failed))
+        path = common.write_replay(PID, seed, 'reference', doc)
+        coverage = {'evaluations': len(ref_failed), 'distinct_nontrivial': 0,
+                    'rule': 'no simulated run beyond the reference schedule: it does not terminate for any input',
+                    'samples': [doc['events'][:600]]}
+        common.write_evidence(PID, tier, seed, 'exploration', coverage, ASSUMPTIONS, time.time() - t0, 1)
+        return common.conclude(PID, [{'signature': sig, 'replay': path, 'what': doc['what']}], known)
     ctx = {'seed': seed, 'pool': pool, 'keep_sample': True}
     bad = determinism_selftest(ctx, list(range(10 ** 6, 10 ** 6 + (12 if quick else 60))))
     if bad is not None:
@@ -368,6 +397,8 @@ def _main(tier, seed, scratch, t0):
                             'policy': rec['policy'], 'trace': rec['sample']})
         if rec['sig']:
             viols.setdefault(rec['sig'], []).append((run, rec['violation']))
+    for li, doc in ref_failed:
+        viols.setdefault(doc['signature'], []).append(('reference-%d' % li, doc))
     singletons = sum(1 for v in traces.values() if v == 1)
     expected = ['producer_blocked_on_full_queue', 'compressor_blocked_on_full_writing_queue',
                 'three_threads_runnable_at_once', 'two_items_in_flight_in_both_queues',
@@ -382,7 +413,7 @@ def _main(tier, seed, scratch, t0):
     for sig, lst in sorted(viols.items()):
         run, doc = min(lst, key=lambda x: len(x[1]['trace']))
         doc = dict(doc, property=PID, seed=seed, run=run, occurrences=len(lst))
-        if sig not in known:
+        if sig not in known and doc.get('policy') != 'seq':
             try:
                 doc, ok = minimise(doc, scratch)
                 doc['minimised'] = ok
